@@ -267,6 +267,8 @@ pub struct PipeState {
     pub input_drops:    AtomicU32,
     pub closure_drops:  AtomicU32,
     pub created:        AtomicU64,
+    /// the back-pressure depth currently set on the output stream
+    pub cur_depth:      AtomicU32,
     pub stream_dropped: AtomicU64,
     pub outputs:        Mutex<Vec<u64>>,
     pub out_ended:      AtomicBool,
@@ -896,6 +898,7 @@ pub fn run_thread(ctx: &Arc<RunCtx>, acts: Vec<TAct>, mortal: Option<Arc<Obj>>) 
             }
             TAct::PipeCreate(p) => crate::pipes::create(ctx, &mut tls, p),
             TAct::Consume(p, n) => crate::pipes::consume(ctx, &mut tls, p, n),
+            TAct::SetDepth(p, d) => { if let Some(s) = tls.streams.get_mut(&p) { ctx.pipes[p].cur_depth.store(d as u32, ORD); s.set_backpressure_depth(d); } }
             TAct::StashStream(p) => { if let Some(s) = tls.streams.remove(&p) { ctx.stream_stash.lock().unwrap().insert(p, s); } }
             TAct::DropStream(p) => { crate::pipes::drop_stream(ctx, &mut tls, p); ctx.note_for_firer(); }
             TAct::Push(p) => crate::pipes::push_item(ctx, p),
@@ -1174,7 +1177,7 @@ pub fn build(prog: Program, native: bool) -> Handles {
     let holds = (0..prog.n_holds).map(|_| Arc::new(Hold::new())).collect();
     let pipes = prog.pipes.iter().map(|pd| { let (tx, rx) = if pd.mpsc { let (tx, rx) = futures::channel::mpsc::unbounded(); (Some(tx), Some(rx)) } else { (None, None) }; PipeState {
         input: Mutex::new(InputCore { q: Default::default(), closed: false, waker: None, polls: 0, pending_polls: 0 }), input_drops: AtomicU32::new(0), closure_drops: AtomicU32::new(0),
-        created: AtomicU64::new(0), stream_dropped: AtomicU64::new(0), outputs: Mutex::new(vec![]), out_ended: AtomicBool::new(false), consumer_parks: AtomicU32::new(0), consumer_waiting: AtomicBool::new(false),
+        created: AtomicU64::new(0), cur_depth: AtomicU32::new(pd.depth as u32), stream_dropped: AtomicU64::new(0), outputs: Mutex::new(vec![]), out_ended: AtomicBool::new(false), consumer_parks: AtomicU32::new(0), consumer_waiting: AtomicBool::new(false),
         pushed: AtomicUsize::new(0), closed_stamp: AtomicU64::new(0), mpsc_tx: Mutex::new(tx), mpsc_rx: Mutex::new(rx), push_lock: Mutex::new(()), drop_class: AtomicU32::new(0),
     } }).collect();
     let n = prog.ops.len();
